@@ -303,6 +303,24 @@ class _KH(RotHooks):
         return RotHooks.attr(self, ev, base, a, node)
 
 
+def _output_names(f):
+    """(gyro, accel, velocity) locals: the blocks of the two returned tables."""
+    ret = [n for n in ast.walk(f.node) if isinstance(n, ast.Return)]
+    if not ret or not isinstance(ret[-1].value, ast.Tuple) or len(ret[-1].value.elts) != 2:
+        return None
+    out = []
+    for t in ret[-1].value.elts:
+        blocks = None
+        for n in ast.walk(t):
+            if isinstance(n, ast.Call) and norm_text(n.func).endswith('hstack') and n.args and \
+                    isinstance(n.args[0], (ast.List, ast.Tuple)):
+                blocks = [norm_text(e) for e in n.args[0].elts]
+        out.append(blocks)
+    if not out[0] or not out[1] or len(out[0]) != 3 or len(out[1]) != 2:
+        return None
+    return out[1][0], out[1][1], out[0][1]
+
+
 def sim_kin(ctx):
     ctx.rule('SIM-KIN', 'rate-type readings of generate_imu satisfy, for an arbitrary smooth '
              'trajectory (splines idealised as exact derivatives), the navigation equations built '
@@ -323,7 +341,9 @@ def sim_kin(ctx):
         except Unsupported as e:
             raise AnalysisError('generate_imu (%s form) not analysable: %s' % (form, e))
         env = ev.last_env
-        gyro, accel, vn = env.get('gyro'), env.get('accel'), env.get('velocity_n')
+        names = _output_names(f)
+        ctx.need(names is not None, 'generate_imu: returned tables not recognised')
+        gyro, accel, vn = env.get(names[0]), env.get(names[1]), env.get(names[2])
         ctx.need(all(isinstance(x, SArray) and x.shape == (3,) for x in (gyro, accel, vn)),
                  'generate_imu locals gyro/accel/velocity_n not recognised')
         ev2 = SymEval(repo, A, hooks=_KH(kin))
